@@ -1,5 +1,5 @@
 """Shared building blocks for the per-property harness generators."""
-from gen.dsl import Pipeline, M, F, FM, FL, TYPE_CHAINS, params_str, val_of, par_type
+from gen.dsl import Pipeline, TaggedPipeline, M, F, FM, FL, TYPE_CHAINS, params_str, val_of, par_type
 from gen.harness import H, STUB_LIST, SCHED_STUBS
 
 KERNEL_OF_TYPE = {"E": "map_fil", "M": "map_fil", "F": "map_fil", "MF": "map_fil",
@@ -221,3 +221,89 @@ def scalar_harness(prop, term, ty, src, n, t, c, chunk_expr=None, extra_pre="", 
                           "threads": t, "chunk": chunk_expr or f"Exact({c})", "schedule": "symbolic",
                           "pipeline": p.descr()},
              unwind=n + 2, weight=weight or n * t * (2 if c == 1 else 3))
+
+
+# ---------------------------------------------------------------- shape-enumerated (Vec-building) terminals
+import itertools
+
+
+def owner_tables(n, t, c):
+    """all assignments of the aligned blocks of size c to t workers, as per-position tables"""
+    nb = (n + c - 1) // c
+    out = []
+    for blocks in itertools.product(range(t), repeat=nb):
+        out.append([blocks[i // c] for i in range(n)])
+    return out
+
+
+def count_vectors(ty, n):
+    """how many outputs each element yields: the survival mask (0/1) or the flat_map fan-out (0..2)"""
+    p = Pipeline("slice", chain_for(ty))
+    kinds = [o.kind for o in p.ops]
+    if "flat_map" in kinds:
+        return list(itertools.product((0, 1, 2), repeat=n))
+    if "filter" in kinds or "filter_map" in kinds:
+        return list(itertools.product((0, 1), repeat=n))
+    return [tuple([1] * n)]
+
+
+def shape_assumes(p, counts):
+    s = ""
+    for i, k in enumerate(counts):
+        s += f"    kani::assume({p.seq_single(str(i))}.count() == {k});\n"
+    return s
+
+
+def shape_name(owners, counts):
+    return "o" + "".join(str(x) for x in owners) + "_k" + "".join(str(x) for x in counts)
+
+
+def tagged_prelude(tp, n, t, owners, obs):
+    s = tp.decl()
+    s += f"    model::begin({n}, {t}, {owners_literal(owners)}, {obs});\n"
+    s += "    #[cfg(not(kani))]\n    { model::set_base(a.as_ptr() as usize); model::set_stride(core::mem::size_of::<(usize, u8)>()); }\n"
+    return s
+
+
+def tagged_seq_eq(tp, out, offset="0", msg="collected sequence differs from the sequential one"):
+    d = "*" if tp.final_is_ref() else ""
+    s = f"    let mut j = {offset};\n"
+    s += f"    for x in {tp.seq()} {{ assert!(j < {out}.len() && {d}{out}[j] == {d}x, \"{msg}\"); j += 1; }}\n"
+    s += f"    assert!(j == {out}.len(), \"{msg} (length)\");\n"
+    return s
+
+
+def tagged_multiset_eq(tp, out, msg="collect_x is not a permutation of the sequential result"):
+    d = "*" if tp.final_is_ref() else ""
+    s = "    let pt: usize = kani::any();\n    let pv: u8 = kani::any();\n    let mut c1 = 0usize;\n    let mut c2 = 0usize;\n    let mut l2 = 0usize;\n"
+    s += f"    let mut j = 0;\n    while j < {out}.len() {{ if {d}{out}[j] == (pt, pv) {{ c1 += 1; }} j += 1; }}\n"
+    s += f"    for x in {tp.seq()} {{ if {d}x == (pt, pv) {{ c2 += 1; }} l2 += 1; }}\n"
+    s += f"    assert!(c1 == c2 && l2 == {out}.len(), \"{msg}\");\n"
+    return s
+
+
+def collect_harness(prop, term, ty, src, n, t, c, owners, counts, obs=1, extra_pre="", check=None, tag="",
+                    chunk_expr=None, target=None, weight=None):
+    """One query = one shape: owner table x outputs-per-element, values symbolic.
+    term: collect_vec | collect | collect_x | collect_into (target = Rust expr of the pre-filled target and its
+    prefix length is checked by `check`)."""
+    tp = TaggedPipeline(ty, counts, src={"slice": "tslice", "vec": "tvec"}[src])
+    body = tagged_prelude(tp, n, t, owners, obs)
+    body += extra_pre
+    params = params_str(t, chunk_expr if chunk_expr else c)
+    if check is not None:
+        body += check(tp, params)
+    elif term in ("collect_vec", "collect"):
+        body += f"    let out = {tp.par(params)}.{term}();\n" + tagged_seq_eq(tp, "out")
+    elif term == "collect_x":
+        body += f"    let out = {tp.par(params)}.collect_x();\n" + tagged_multiset_eq(tp, "out")
+    else:
+        raise ValueError(term)
+    body += "    kani::cover!(true);\n"
+    name = cfg_name(prop, term, ty, src, f"n{n}", f"t{t}", f"c{c}", shape_name(owners, counts), tag)
+    return H(name, body, {"terminal": term, "type": ty, "kernel": KERNEL_OF_TYPE[ty], "src": src, "n": n, "threads": t,
+                          "chunk": chunk_expr or f"Exact({c})",
+                          "schedule": {"owners": list(owners), "observations": {1: "lazy", 2: "eager"}.get(obs, obs)},
+                          "outputs_per_element": list(counts), "values": "symbolic, decisions on concrete position tags"},
+             unwind=34 if (term == "collect" and ty == "M") else max(n + 3, sum(counts) + 3, 2 * n + 1 if "FL" in ty else 0),
+             weight=weight or (5 + sum(counts) * 2 + (6 if term in ("collect", "collect_x") else 0)))
